@@ -187,4 +187,13 @@ def check (crl : CRL) (serial : Int) (cache : Option Cache) : RevData :=
     | none => ret
   | none => search crl.entries serial ret
 
+/-! ### repeated lookups on one CertificateList -/
+
+/-- A sequence of lookups `(serial, cache)` made on ONE `*pkix.CertificateList` object (and on cache maps built once
+    from it).  `CheckCRLForCert` only reads its arguments, so lookup `i` of the sequence is the single lookup on the
+    ORIGINAL CRL value: the model threads no state.  The T2 stream `c14 seq …` runs the Go code on one shared object
+    against this function. -/
+def checkSeq (crl : CRL) (qs : List (Int × Option Cache)) : List RevData :=
+  qs.map (fun q => check crl q.1 q.2)
+
 end ZV.C14
